@@ -71,12 +71,13 @@ CONTRACTS = [
              modifies=["list@self._returncodes", "g_appends", "g_writes", "g_pops", "g_reads"],
              ensures=[C("counters", "pipe_inv(self) and g_pops == g_reads"), C("one_completion_consumed", "g_pops == old(g_pops) + 1")]),
 
-    Contract(F + "::SigchldHelper._handler", params={"sig": "any", "frame": "any"}, props=["C09", "C03"],
+    Contract(F + "::SigchldHelper._handler", params={"sig": "any", "frame": "any"}, props=["C09", "C03", "C06"],
              locals={"pid": "int", "status": "int"},
              requires=[C("counters", "pipe_inv(g_handler_self) and g_handler_self._write_pipe is not None")],
              prefer_ext={"SigchldHelper.instance": "SigchldHelper.instance(handler)"},
              modifies=["list@g_handler_self._returncodes", "g_appends", "g_writes", "g_exited", "g_reaped", "g_drained"],
-             ghost=[Ghost("assert implies(WIfExited(status), returncode == WExitStatus(status))\nassert implies(not WIfExited(status), returncode >= 1)",
+             ghost=[Ghost("assert implies(WIfExited(status), returncode == WExitStatus(status)), 'normal_exit_reports_its_exit_status'\n"
+                          "assert implies(not WIfExited(status), returncode >= 1), 'a_task_killed_by_a_signal_never_reports_zero'",
                           before="SigchldHelper.instance()._add_returncode(pid, returncode)")],
              ensures=[C("reaps_until_no_exited_child_is_left", "g_drained"),
                       C("rely_respected", "g_appends >= old(g_appends) and g_writes - old(g_writes) == g_appends - old(g_appends) and pipe_inv(g_handler_self)"),
